@@ -96,6 +96,11 @@ open Spec
 
 def wsChar (c : Char) : Bool := c == ' ' || c == '\t' || c == '\n'
 
+/-- the non-whitespace characters of a text -/
+def nwC (s : List Char) : List Char := s.filter fun c => !wsChar c
+
+theorem nwC_append (a b : List Char) : nwC (a ++ b) = nwC a ++ nwC b := by simp [nwC]
+
 theorem lead_beq (c d : Char) : (ABy.lead c == ABy.lead d) = (c == d) := by
   by_cases h : c = d
   · subst h; simp
@@ -170,13 +175,13 @@ theorem trim_full (s : Bytes) (x y : ABy) (hx : s.head? = some x) (hxw : isWs x 
 /-- deleting whitespace bytes from an encoded text leaves an encoded text, made of characters of the original -/
 theorem minusFrom_encoded (F : List Rng) : ∀ (v : List Char) (off : Nat),
     (∀ k, k < (bytesOf v).length → inAny F (off + k) = true → ∃ y, (bytesOf v)[k]? = some y ∧ isWs y = true) →
-    ∃ v', minusFrom (bytesOf v) off F = bytesOf v' ∧ ∀ c ∈ v', c ∈ v
-  | [], _, _ => ⟨[], rfl, by simp⟩
+    ∃ v', minusFrom (bytesOf v) off F = bytesOf v' ∧ (∀ c ∈ v', c ∈ v) ∧ nwC v' = nwC v
+  | [], _, _ => ⟨[], rfl, by simp, rfl⟩
   | c :: cs, off, h => by
     have hcb : (charBytes c).length = c.utf8Size := by
       simp only [charBytes, List.length_cons, List.length_replicate]
       have := Char.utf8Size_pos c; omega
-    obtain ⟨v', hv', hsub⟩ := minusFrom_encoded F cs (off + c.utf8Size) (by
+    obtain ⟨v', hv', hsub, hnw⟩ := minusFrom_encoded F cs (off + c.utf8Size) (by
       intro k hk hF
       have := h (c.utf8Size + k) (by simp only [bytesOf, List.length_append, hcb]; omega) (by rw [← Nat.add_assoc]; exact hF)
       simp only [bytesOf] at this
@@ -193,14 +198,16 @@ theorem minusFrom_encoded (F : List Rng) : ∀ (v : List Char) (off : Nat),
       rw [hcb1, minusFrom_cons1]
       by_cases hF : inAny F off = true
       · rw [if_pos hF]
-        exact ⟨v', by simp [minusFrom], fun x hx => List.mem_cons_of_mem _ (hsub x hx)⟩
+        exact ⟨v', by simp [minusFrom], fun x hx => List.mem_cons_of_mem _ (hsub x hx),
+          by simp [nwC, List.filter_cons, hws] at hnw ⊢; exact hnw⟩
       · rw [if_neg hF]
-        refine ⟨c :: v', ?_, ?_⟩
+        refine ⟨c :: v', ?_, ?_, ?_⟩
         · simp [minusFrom, bytesOf, hcb1]
         · intro x hx
           rcases List.mem_cons.mp hx with rfl | hx
           · simp
           · exact List.mem_cons_of_mem _ (hsub x hx)
+        · simp [nwC, List.filter_cons, hws] at hnw ⊢; exact hnw
     · -- no byte of this character is whitespace: nothing of it is deleted
       have hkeep : minusFrom (charBytes c) off F = charBytes c := by
         apply minusFrom_keep
@@ -220,11 +227,13 @@ theorem minusFrom_encoded (F : List Rng) : ∀ (v : List Char) (off : Nat),
           · rw [isWs_lead] at hyw; exact hws hyw
           · rw [isWs_cont] at hyw; exact absurd hyw (by simp)
       rw [hkeep]
-      refine ⟨c :: v', by simp [bytesOf], ?_⟩
-      intro x hx
-      rcases List.mem_cons.mp hx with rfl | hx
-      · simp
-      · exact List.mem_cons_of_mem _ (hsub x hx)
+      refine ⟨c :: v', by simp [bytesOf], ?_, ?_⟩
+      · intro x hx
+        rcases List.mem_cons.mp hx with rfl | hx
+        · simp
+        · exact List.mem_cons_of_mem _ (hsub x hx)
+      · simp only [nwC, List.filter_cons] at hnw ⊢
+        rw [hnw]
 
 end Chiritori
 
@@ -239,6 +248,13 @@ theorem exists_snoc {α} : ∀ (l : List α), l ≠ [] → ∃ w c, l = w ++ [c]
     obtain ⟨w, c, h⟩ := exists_snoc (y :: rest) (by simp)
     exact ⟨x :: w, c, by rw [h]; rfl⟩
 
+/-- piece by piece, a well-delimited text against a token list: the same tags, texts with the same non-whitespace -/
+def PRel (ds de : List Char) : List Piece → List Token → Prop
+  | [], [] => True
+  | .text v :: ps, t :: L => t.kind = .text ∧ nwC v = nwC t.value ∧ PRel ds de ps L
+  | .tag b0 rest :: ps, t :: L => t.kind = .element ∧ t.value = ds ++ (b0 :: (rest ++ de)) ∧ PRel ds de ps L
+  | _, _ => False
+
 /-- Lemma P: tokens of a well-delimited text, whitespace deleted outside the cores: again a well-delimited text,
     with the same tags -/
 theorem pieces_after (d0 : Char) (dr : List Char) (e0 : Char) (er : List Char) (hd0 : wsChar d0 = false)
@@ -250,8 +266,8 @@ theorem pieces_after (d0 : Char) (dr : List Char) (e0 : Char) (er : List Char) (
     CoresKept F (layoutOf (L.map fun t => bytesOf t.value)) off →
     ∃ ps, (∀ p ∈ ps, p.ok d0 e0) ∧
       bytesOf (renderAll (d0 :: dr) (e0 :: er) ps) = minusFrom (L.map fun t => bytesOf t.value).flatten off F ∧
-      tagsOf (d0 :: dr) (e0 :: er) ps = tagValues L
-  | [], _, _, _, _, _, _ => ⟨[], by simp, by simp [renderAll, bytesOf, minusFrom], by simp [tagsOf, tagValues]⟩
+      tagsOf (d0 :: dr) (e0 :: er) ps = tagValues L ∧ PRel (d0 :: dr) (e0 :: er) ps L
+  | [], _, _, _, _, _, _ => ⟨[], by simp, by simp [renderAll, bytesOf, minusFrom], by simp [tagsOf, tagValues], trivial⟩
   | t :: L, off, pre, hK, hpre, hsh, hck => by
     have hsht := hsh t (by simp)
     obtain ⟨hs, _, _, _, _⟩ := trimWs_decomp (bytesOf t.value)
@@ -261,7 +277,7 @@ theorem pieces_after (d0 : Char) (dr : List Char) (e0 : Char) (er : List Char) (
       simp [Nat.add_assoc]
     simp only [List.map_cons, layoutOf, CoresKept, List.length_nil, Nat.add_zero] at hck
     obtain ⟨hcore, _, hrest⟩ := hck
-    obtain ⟨ps, p1, p2, p3⟩ := pieces_after d0 dr e0 er hd0 hel F K hF L (off + (bytesOf t.value).length)
+    obtain ⟨ps, p1, p2, p3, p4⟩ := pieces_after d0 dr e0 er hd0 hel F K hF L (off + (bytesOf t.value).length)
       (pre ++ bytesOf t.value) (by rw [hK]; simp) (by simp [hpre]) (fun u hu => hsh u (by simp [hu]))
       (by rw [hlen]; simpa [Nat.add_assoc] using hrest)
     simp only [List.map_cons, List.flatten_cons]
@@ -289,7 +305,7 @@ theorem pieces_after (d0 : Char) (dr : List Char) (e0 : Char) (er : List Char) (
         rw [t1, t2] at hcore
         exact hcore i (by simpa using hi1) (by simpa using hi2)
       rw [hkeep]
-      refine ⟨.tag b0 rest :: ps, ?_, ?_, ?_⟩
+      refine ⟨.tag b0 rest :: ps, ?_, ?_, ?_, ⟨hk, hv, p4⟩⟩
       · intro p hp
         rcases List.mem_cons.mp hp with rfl | hp
         · exact hrest'
@@ -301,7 +317,7 @@ theorem pieces_after (d0 : Char) (dr : List Char) (e0 : Char) (er : List Char) (
         congr 1
     | text =>
       simp only [TokShape, hk] at hsht
-      obtain ⟨v', hv', hsub⟩ := minusFrom_encoded F t.value off (by
+      obtain ⟨v', hv', hsub, hnw⟩ := minusFrom_encoded F t.value off (by
         intro k hk' hFk
         obtain ⟨y, hy, hyw⟩ := hF (off + k) hFk
         refine ⟨y, ?_, hyw⟩
@@ -310,7 +326,7 @@ theorem pieces_after (d0 : Char) (dr : List Char) (e0 : Char) (er : List Char) (
         rw [Nat.add_sub_cancel_left, List.getElem?_append_left hk'] at hy
         exact hy)
       rw [hv']
-      refine ⟨.text v' :: ps, ?_, ?_, ?_⟩
+      refine ⟨.text v' :: ps, ?_, ?_, ?_, ⟨hk, hnw, p4⟩⟩
       · intro p hp
         rcases List.mem_cons.mp hp with rfl | hp
         · intro c hc; exact hsht c (hsub c hc)
